@@ -118,6 +118,10 @@ pub enum Prog {
     ConsumeSyncAwait,
     /// a join future is created, the owner detached; stop; the join future still yields the actor
     JoinStartDetachStopAwait,
+    /// the k-th owner script of C17's family (join / consume / consume_sync / detach / to_addr in
+    /// every order C17 knows), with a submitter and a late stopper: whatever the owner sees, it
+    /// sees the same on every runtime
+    OwnerScript(u8),
 }
 
 pub const PROGS: [Prog; 16] = [
@@ -283,6 +287,13 @@ fn ops_for(prog: Prog, owning: bool) -> Vec<Op> {
                 vec![Op::Call(t, 1), Op::Yield, Op::Call(t, 2)]
             }
         }
+        Prog::OwnerScript(k) => {
+            if owning {
+                crate::props::c17::owner_scripts()[k as usize].1.clone()
+            } else {
+                vec![Op::Call(t, 1), Op::Yield, Op::Call(t, 2)]
+            }
+        }
         Prog::PanicAwaitJoin => {
             if owning {
                 vec![Op::Call(t, 1), Op::ToAddr(H::Own(0)), Op::Send(H::Own(0), 66), Op::Await(H::Addr(0)), Op::Join(H::Own(0))]
@@ -355,6 +366,16 @@ impl Scene for S {
         }
         let owning = !h.own.is_empty();
         let ops = ops_for(self.prog, owning);
+        if let (Prog::OwnerScript(k), true) = (self.prog, owning) {
+            // a submitter, a stopper that comes once the owner's joins are pending, and - for the
+            // scripts that hand a join future to a second task - that task
+            let base = h.own[0].as_ref().expect("owner").to_addr();
+            exec.spawn_client(2, run_client(2, Handles::with_addr(base.clone()), vec![Op::Send(H::Addr(0), 31), Op::Call(H::Addr(0), 32)]));
+            exec.spawn_client(3, run_client(3, Handles::with_addr(base), vec![Op::Sleep(3), Op::Stop(H::Addr(0))]));
+            if crate::props::c17::owner_scripts()[k as usize].0.contains("two-tasks") {
+                exec.spawn_client(4, run_client(4, Handles::default(), vec![Op::Sleep(1), Op::JoinTake, Op::JoinAwait(0)]));
+            }
+        }
         match (self.prog, keep_handle) {
             (Prog::DropOthersCall, Some(handle)) => drop(handle),
             (Prog::DetachCall, Some(handle)) => handle.detach(),
@@ -392,6 +413,9 @@ impl Scene for S {
                 Prog::CallDropAll | Prog::PanicAwaitJoin => o.i == 0,
                 Prog::AbandonJoinDetachCall | Prog::AbandonJoinDropOwnerCall | Prog::PendingJoinDetachCall | Prog::InFlightJoinDetachCall | Prog::UnwindDropOwnerCall => true,
                 Prog::JoinStartDropOwnerStopAwait | Prog::ConsumeSyncAwait | Prog::JoinStartDetachStopAwait => true,
+                // (the owner scripts stop, consume and detach at will: only the comparison across
+                // the runtimes speaks about them)
+                Prog::OwnerScript(_) => false,
                 Prog::InFlightJoinSecondJoin => o.i == 0,
             };
             if o.c == 0 && call_op && is_call {
@@ -458,14 +482,22 @@ impl Scene for S {
 fn cases(tier: Tier) -> Vec<Case> {
     let mut v = vec![];
     for entry in ENTRIES {
-        for prog in PROGS {
+        let owning_entry = matches!(
+            entry,
+            Entry::SpawnOwning | Entry::DefaultSpawnOwning | Entry::SpawnOwningOnStream | Entry::BuildUnboundedSpawnOwning | Entry::BuildBoundedSpawnOwning | Entry::BuildRecreateSpawnOwning | Entry::BuildNonRestartableSpawnOwning | Entry::BuildOnStreamSpawnOwning | Entry::BuildBoundedOnStreamSpawnOwning
+        );
+        let mut progs: Vec<Prog> = PROGS.to_vec();
+        if owning_entry {
+            progs.extend((0..crate::props::c17::owner_scripts().len() as u8).map(Prog::OwnerScript));
+        }
+        for prog in progs {
             let _ = tier;
             v.push(Case {
                 desc: format!("runtime-equivalence entry={entry:?} program={prog:?}"),
                 exec: ExecCfg {
                     horizon: if prog == Prog::Ticks { 4 } else { 25 },
                     // programs that poll a join future exactly once see whether the handle's lock suspends
-                    lock_yield_is_choice: matches!(prog, Prog::InFlightJoinDetachCall | Prog::InFlightJoinSecondJoin),
+                    lock_yield_is_choice: matches!(prog, Prog::InFlightJoinDetachCall | Prog::InFlightJoinSecondJoin) || matches!(prog, Prog::OwnerScript(k) if crate::props::c17::owner_scripts()[k as usize].0.contains("polled")),
                     ..ExecCfg::default()
                 },
                 bound: None,
